@@ -246,7 +246,9 @@ func classify(n *Node, x ctx, r result) string {
 		class := "default-delimiter"
 		if len(n.A) > 1 {
 			class = "single-byte-delimiter"
-			if len(n.A[1].S) > 1 {
+			if d, ok := constText(n.A[1]); !ok {
+				class = "delimiter-from-the-match"
+			} else if len(d) > 1 {
 				class = "multibyte-delimiter"
 			}
 		}
@@ -299,6 +301,12 @@ type Case struct {
 	Node     *Node      `json:"node,omitempty"`
 	Size     *sizeRef   `json:"size,omitempty"`    // family "size": program and match are regenerated from (shape, n)
 	History  []histStep `json:"history,omitempty"` // family "history": the evaluations in order; the last one is judged
+	// families "arglist" and "delim": the helper call under the consumer, the
+	// twin program (constant arguments replaced by groups) and its match
+	Inner     *Node `json:"inner,omitempty"`
+	Twin      *Node `json:"twin,omitempty"`
+	TwinInner *Node `json:"twin_inner,omitempty"`
+	TwinCtx   *ctx  `json:"twin_match,omitempty"`
 }
 
 func caseOf(p *program, x ctx) Case {
@@ -391,7 +399,8 @@ func worker(w *runner.W) {
 		}
 		defer func() { forCap = 24 }()
 		tmpl := p.node.String()
-		var c *compiled
+		var c, noOpt *compiled
+		twinFamily := p.family == "arglist" || p.family == "delim"
 		if probeSkips(p.node) {
 			w.Add("programs_not_compiled_probe_would_not_terminate", 1)
 			return true
@@ -416,8 +425,8 @@ func worker(w *runner.W) {
 			if si >= len(p.ctxs) {
 				id = &p.ctxs[2*len(p.ctxs)-1-si]
 			}
-			if p.size != nil {
-				id = nil // no memo of big values
+			if p.size != nil || twinFamily {
+				id = nil // no memo of big values, nor of programs whose nodes are not shared with other programs
 			}
 			want := ref(p.node, env{g: x.G, keys: x.K, id: id})
 			if want.skip {
@@ -442,6 +451,24 @@ func worker(w *runner.W) {
 			if !r.ok {
 				report(w, p, x, r)
 				continue
+			}
+			if twinFamily {
+				// the same program without the optimiser, and its twin with every
+				// constant argument replaced by a group of that value (arglist.go)
+				if noOpt == nil {
+					noOpt = compileTemplateNoOpt(tmpl)
+				}
+				ci := si
+				if si >= len(p.ctxs) {
+					ci = 2*len(p.ctxs) - 1 - si
+				}
+				tx := x
+				if p.twin != nil {
+					tx = p.twinCtxs[ci]
+				}
+				if !checkTwin(w, p, noOpt, x, tx, r.got) {
+					continue
+				}
 			}
 			if p.size != nil {
 				w.Add("size_family_cases", 1)
@@ -472,7 +499,7 @@ func replay(w *runner.W, raw json.RawMessage) {
 		replayHistory(w, c)
 		return
 	}
-	p := &program{family: c.Family, node: c.Node, ctxs: []ctx{c.Ctx}}
+	p := &program{family: c.Family, node: c.Node, ctxs: []ctx{c.Ctx}, inner: c.Inner, twin: c.Twin, twinInner: c.TwinInner}
 	if c.Size != nil {
 		p = sizeProgramByRef(c.Size)
 		forCap = p.forCap
@@ -485,6 +512,14 @@ func replay(w *runner.W, raw json.RawMessage) {
 	}
 	if !r.ok {
 		report(w, p, x, r)
+		return
+	}
+	if c.Family == "arglist" || c.Family == "delim" {
+		tx := x
+		if c.TwinCtx != nil {
+			tx = *c.TwinCtx
+		}
+		checkTwin(w, p, nil, x, tx, r.got)
 	}
 }
 
@@ -495,10 +530,17 @@ func main() {
 		Level:      "exploration",
 		Rule: func(prop, tier string) string {
 			ll, ix, sl, sz := "0..3", "-5..5", "5", strconv.Itoa(sizeCapThorough)
+			al, dl, jl := "0..5", "4", "3"
+			a5 := "; lists of 5 arguments: only the first five constant forms and the first three group values"
+			af := "{a constant text, the constant \"\", {@range 0}, {coalesce \"\"}, {@split \",d\" \",\"} (a list with a leading empty element), {coalesce \"\" text}, {@split \"t,,\" \",\"} (trailing empty elements), the nested {@ \"\" text}}"
+			ag := "a text, empty, a list with a leading empty element, a list with a trailing empty element, a list of two empty elements"
 			if tier != "thorough" {
 				ll, ix, sl, sz = "0..2", "-3..3", "4", strconv.Itoa(sizeCapQuick)
+				al, dl, jl, a5 = "0..4", "3", "2", ""
+				af = "{a constant text, the constant \"\", {@range 0}, {coalesce \"\"}, {@split \",d\" \",\"} (a list with a leading empty element)}"
+				ag = "a text, empty, a list with a leading empty element"
 			}
-			return "programs: 20 sources ({0}; @split of the joined list by {default, ',', '::', ' ', 'é', 'ab'}; {@ ..}/{$ ..} of groups, of list+element, of constants; 4 @range; 2 @for) x chains of 0, 1 and 2 operations out of {@len; @join default/''/5 delimiters; @split default/5 delimiters; @map with 11 sub-expressions; @filter with 9; @reduce with 7 x initial {unset, '', I, 0}; @select index " + ix + "; @slice start " + ix + " x length {unset, " + ix + "}} (sub-expressions: {0} {1} {-1} named keys, upper len sumi eq not if coalesce lt, nested @split/@join/@map/@len/@in), each on every list of " + ll + " elements over {'', a, 'b b', é, and the non-UTF-8 bytes \\xe9, \\xc3, \\xff} (results compared byte for byte); plus @split/@join/@len/@select/@slice on every string of length <= " + sl + " over {a : , é \\xe9 \\xc3 \\xff} with delimiters {',', '::', 'é', 'aa', 'a:', ':,:'}; @range with 1-3 constant and dynamic arguments in " + ix + " and non-numbers; 252 @for loops (4 starts x 9 conditions x 7 increments) alone and under @len/@join; @in over 12 constant arrays x 10 values. Family nest: " + strconv.Itoa(len(nestPrograms())) + " programs with array helpers inside the sub-expression of array helpers ({@map} 2, 3 and 4 deep over the separators space, comma, semicolon; {0}, {1} and named keys used AFTER an inner @map/@filter/@reduce/@len ran inside the same sub-expression; inner @reduce inside @map inside @map; @for around and inside @map), alone and under @len/@join/@select, on every list of " + ll + " elements over {'', a, 'b b', 'a,b c', 'x;y,z w', 'a b;c', '1 22 333'} and of 0..2 elements over the byte alphabet. Family size (signatures end in /size-family): " + strconv.Itoa(len(sizeShapes())) + " fixed program shapes on inputs whose size n is swept over 0..70 and 2^k-1, 2^k, 2^k+1 (k >= 7) up to " + sz + " (programs that copy n*n bytes: up to 257..1025 quick / 1025..4097 thorough): lists of n elements e0..e(n-1), with empty elements at the start, middle and end, one element followed by n empty ones, n empty ones, n/2 leading empty ones; @split/@join/@len/@select over them with the delimiters {',', '::', 'aba', 'abab', 'ababa', 'aa'} (1..5 bytes, four of them self-overlapping), also with elements that end in a prefix or start with a suffix of the delimiter (when the allowed decompositions are too many to list, the outermost @split is judged by a test - no element contains the delimiter and the join gives the string back - and @join of @split by the same delimiter must give the string back); @select index and @slice start in {-n-1,-n,-n+1,-2,-1,0,1,2,n/2,n-2,n-1,n,n+1} x length {unset,0,1,2,n/2,n-1,n,n+1}; @range with 10 argument shapes producing about n elements (constant and from groups) and 5 @for loops producing n elements, alone and under @len/@join/@select -1/@reduce sumi/@slice -2; @map (6), @filter (8), @reduce (6) over the n elements; the nest programs over n structured elements and over elements with n innermost parts. Family history: every program of the families chain0, chain1, range, for, in and nest: the sub-context pool is put into the fresh-process state ONCE, the program is compiled ONCE and evaluated over all its matches forward and backward with nothing in between, then alternately with each of 6 other compiled expressions (disturbers taking 1..4 nested sub-contexts from the same pool, binding {1}, resolving keys) on their own matches; named keys differ from match to match; every result must equal that of a fresh compilation on a fresh pool (signature C17/<helper>/value-depends-on-earlier-evaluations). Every program is compiled by NewStdKeyBuilder (optimising) and evaluated through BuildKey; one case = (program, match). non-trivial = the result is constrained by the statement, is not an error marker and agrees with the model (history: the fresh result is not an error marker or panic)"
+			return "programs: 20 sources ({0}; @split of the joined list by {default, ',', '::', ' ', 'é', 'ab'}; {@ ..}/{$ ..} of groups, of list+element, of constants; 4 @range; 2 @for) x chains of 0, 1 and 2 operations out of {@len; @join default/''/5 delimiters; @split default/5 delimiters; @map with 11 sub-expressions; @filter with 9; @reduce with 7 x initial {unset, '', I, 0}; @select index " + ix + "; @slice start " + ix + " x length {unset, " + ix + "}} (sub-expressions: {0} {1} {-1} named keys, upper len sumi eq not if coalesce lt, nested @split/@join/@map/@len/@in), each on every list of " + ll + " elements over {'', a, 'b b', é, and the non-UTF-8 bytes \\xe9, \\xc3, \\xff} (results compared byte for byte); plus @split/@join/@len/@select/@slice on every string of length <= " + sl + " over {a : , é \\xe9 \\xc3 \\xff} with delimiters {',', '::', 'é', 'aa', 'a:', ':,:'}; @range with 1-3 constant and dynamic arguments in " + ix + " and non-numbers; 252 @for loops (4 starts x 9 conditions x 7 increments) alone and under @len/@join; @in over 12 constant arrays x 10 values. Family nest: " + strconv.Itoa(len(nestPrograms())) + " programs with array helpers inside the sub-expression of array helpers ({@map} 2, 3 and 4 deep over the separators space, comma, semicolon; {0}, {1} and named keys used AFTER an inner @map/@filter/@reduce/@len ran inside the same sub-expression; inner @reduce inside @map inside @map; @for around and inside @map), alone and under @len/@join/@select, on every list of " + ll + " elements over {'', a, 'b b', 'a,b c', 'x;y,z w', 'a b;c', '1 22 333'} and of 0..2 elements over the byte alphabet. Family size (signatures end in /size-family): " + strconv.Itoa(len(sizeShapes())) + " fixed program shapes on inputs whose size n is swept over 0..70 and 2^k-1, 2^k, 2^k+1 (k >= 7) up to " + sz + " (programs that copy n*n bytes: up to 257..1025 quick / 1025..4097 thorough): lists of n elements e0..e(n-1), with empty elements at the start, middle and end, one element followed by n empty ones, n empty ones, n/2 leading empty ones; @split/@join/@len/@select over them with the delimiters {',', '::', 'aba', 'abab', 'ababa', 'aa'} (1..5 bytes, four of them self-overlapping), also with elements that end in a prefix or start with a suffix of the delimiter (when the allowed decompositions are too many to list, the outermost @split is judged by a test - no element contains the delimiter and the join gives the string back - and @join of @split by the same delimiter must give the string back); @select index and @slice start in {-n-1,-n,-n+1,-2,-1,0,1,2,n/2,n-2,n-1,n,n+1} x length {unset,0,1,2,n/2,n-1,n,n+1}; @range with 10 argument shapes producing about n elements (constant and from groups) and 5 @for loops producing n elements, alone and under @len/@join/@select -1/@reduce sumi/@slice -2; @map (6), @filter (8), @reduce (6) over the n elements; the nest programs over n structured elements and over elements with n innermost parts. Families arglist and delim (constant versus dynamic arguments crossed with empty versus non-empty values): {$ ..} and {@ ..} with " + al + " arguments where EVERY argument independently is one of " + af + " or the group {p+1}, which over the matches (all combinations) is " + ag + " (texts carry the argument position" + a5 + "); each list alone and under @len, @select 0..5 and -1, @slice 1 / -2 / 1 2, @join ',' and default; @split of every string of length <= " + dl + " over {a , :} (so starting and ending with the delimiter, holding it twice, being it) by ',' and '::' with the input a constant or a group and the delimiter a constant text or the constant sub-expression {coalesce \"\" d}, under the same consumers and @join by the same delimiter; {@join {@split {1} {2}} {2}} with the delimiter taken from the match ({',', '::', ' ', 'a'} x strings of length <= " + dl + " over {a , : space}: must give the string back or an error marker); @join of every list of 0.." + jl + " elements over {'', a, b} given as a constant sub-expression ({@split \"..\" \";\"}, {@ ..}, {@range 0}, \"\") by the default delimiter, ',', '::', '' and {coalesce \"\" \",\"}, alone and under @split/@len{@split} by the same delimiter. Each such program is judged by the list model AND must return byte for byte the same as (a) itself compiled by NewStdKeyBuilderEx(false) (no optimiser; signature C17/<helper>/optimiser-changes-result) and (b) its twin: the same helpers with every constant argument replaced by a group holding the value the real code gives that argument on its own (signature C17/<helper>/constant-and-dynamic-arguments-disagree); every program is evaluated over all its matches forward and backward (programs without a group: on two matches). Family history: every program of the families chain0, chain1, range, for, in and nest: the sub-context pool is put into the fresh-process state ONCE, the program is compiled ONCE and evaluated over all its matches forward and backward with nothing in between, then alternately with each of 6 other compiled expressions (disturbers taking 1..4 nested sub-contexts from the same pool, binding {1}, resolving keys) on their own matches; named keys differ from match to match; every result must equal that of a fresh compilation on a fresh pool (signature C17/<helper>/value-depends-on-earlier-evaluations). Every program is compiled by NewStdKeyBuilder (optimising) and evaluated through BuildKey; one case = (program, match). non-trivial = the result is constrained by the statement, is not an error marker and agrees with the model (history: the fresh result is not an error marker or panic)"
 		},
 		Assumptions: func(string) []string {
 			return []string{
@@ -508,6 +550,8 @@ func main() {
 				"{1} inside @map/@filter is not described by the statement; the model takes it as empty and no program relies on it",
 				"size sweeps stop at the cap of the tier; between the swept sizes (71..126, 130..254, ...) only the small lists are covered; programs whose @for would run longer than n+2 iterations in the model are not executed",
 				"programs for which the model predicts more than 24 @for iterations are not executed (the implementation would run to its 1,000,000-iteration guard); the same holds for programs whose @for would not end on the empty match that Compile evaluates every stage against",
+				"families arglist and delim: '{$ ..}/{@ ..} concatenate their arguments in order' (and the sentences on @split/@join) define the result by the VALUES of the arguments, so a constant argument and a group holding the same value must give the same result, and the optimiser must be invisible; which of the two readings of an empty argument (no element / one empty element) is taken stays free, as everywhere in the model. {@} without arguments ('an array of all matches') and {tab ..} are outside the statement and not enumerated",
+				"a @split/@join delimiter that is not a constant is not described by the statement (rare silently uses the default): only the inverse law {@join {@split s d} d} == s is demanded of it, an error marker being accepted too",
 				"only the sequential part of C17; two concurrent evaluators sharing the pool are not covered by this harness",
 			}
 		},
